@@ -58,6 +58,31 @@ Qed.
 Lemma get_job_unfold : forall c j sr, get_search c (fst j) = Some sr -> get_job c j = aget (snd j) (jobs sr).
 Proof. intros c j sr H. unfold get_job. rewrite H. reflexivity. Qed.
 
+Lemma out_all_in : forall l vs p r v, out_all l = Ok vs -> In (p, r) l -> aget K_OUT r = Some v -> f_is_none v = false -> In v vs.
+Proof.
+  induction l as [|[p0 r0] t IH]; intros vs p r v H Hin Hk Hn; [destruct Hin|].
+  cbn [out_all] in H. destruct (aget K_OUT r0) as [v0|] eqn:E0; [|discriminate H].
+  destruct (out_all t) as [vs'|] eqn:Et; [|discriminate H].
+  destruct Hin as [Heq|Hin].
+  - inversion Heq. subst. rewrite Hk in E0. inversion E0. subst v0. rewrite Hn in H. inversion H. left. reflexivity.
+  - specialize (IH vs' p r v eq_refl Hin Hk Hn). destruct (f_is_none v0); inversion H; subst; [assumption | right; assumption].
+Qed.
+
+Lemma meta_all_in : forall k l vs p r m v, meta_all k l = Ok vs -> In (p, r) l -> aget K_META r = Some (FM m) ->
+  aget k m = Some v -> is_none v = false -> In v vs.
+Proof.
+  induction l as [|[p0 r0] t IH]; intros vs p r m v H Hin Hm Hk Hn; [destruct Hin|].
+  cbn [meta_all] in H. destruct (aget K_META r0) as [[v0|m0]|] eqn:E0; try discriminate H.
+  destruct (meta_all k t) as [vs'|] eqn:Et; [|discriminate H].
+  destruct Hin as [Heq|Hin].
+  - inversion Heq. subst. rewrite Hm in E0. inversion E0. subst m0. rewrite Hk, Hn in H. inversion H. left. reflexivity.
+  - specialize (IH vs' p r m v eq_refl Hin Hm Hk Hn).
+    destruct (aget k m0) as [v1|]; [destruct (is_none v1)|]; inversion H; subst; try assumption. right. assumption.
+Qed.
+
+Lemma existsb_in_refl : forall A (eqb : A -> A -> bool) (x : A) l, eqb x x = true -> In x l -> existsb (eqb x) l = true.
+Proof. intros A eqb x l Hr Hin. apply existsb_exists. exists x. auto. Qed.
+
 (* the model's answer to any operation agrees with every entry that holds *)
 Lemma holds_entry_ok : forall c o e, wf c -> holds c e -> entry_ok o (snd (step c o)) e = true.
 Proof.
@@ -88,6 +113,26 @@ Proof.
       unfold holds in H. rewrite E in H. cbn [abs a_sval] in H. rewrite Es, Ek in H. discriminate H.
     + apply negb_true_iff. destruct (loc_eqb (fst e) (LS s k)) eqn:E; [|reflexivity]. apply loc_eqb_eq in E.
       unfold holds in H. rewrite E in H. cbn [abs a_sval] in H. rewrite Es in H. discriminate H.
+  - (* LoadMetaAll *) destruct (get_search c s) as [sr|] eqn:Es; [|reflexivity].
+    destruct (meta_all k (jobs sr)) as [vs|] eqn:Em; cbn [snd]; [|reflexivity].
+    destruct e as [[j k'|j k'|s' k'] [v|mv]]; try reflexivity.
+    destruct ((fst j =? s) && (k' =? k) && negb (is_none v)) eqn:Ec; [|reflexivity].
+    apply andb_true_iff in Ec. destruct Ec as [Ec E3]. apply andb_true_iff in Ec. destruct Ec as [E1 E2].
+    apply Z.eqb_eq in E1. apply Z.eqb_eq in E2. apply negb_true_iff in E3. subst s k'.
+    unfold holds in H. cbn [fst snd] in H. destruct H as [m [v' [Hm [Hk Hv]]]]. inversion Hv. subst v'.
+    destruct (cell_some_get _ _ _ _ Hm) as [r [Hr Hmr]]. rewrite (get_job_unfold c j sr Es) in Hr.
+    apply existsb_in_refl; [apply val_eqb_refl|].
+    eapply meta_all_in; [eassumption | apply aget_some_in; eassumption | eassumption | eassumption | assumption].
+  - (* LoadOutAll *) destruct (get_search c s) as [sr|] eqn:Es; [|reflexivity].
+    destruct (out_all (jobs sr)) as [vs|] eqn:Em; cbn [snd]; [|reflexivity].
+    destruct e as [[j k'|j k'|s' k'] v]; cbn [fst snd]; try reflexivity.
+    destruct ((fst j =? s) && (k' =? K_OUT) && negb (f_is_none v)) eqn:Ec; [|reflexivity].
+    apply andb_true_iff in Ec. destruct Ec as [Ec E3]. apply andb_true_iff in Ec. destruct Ec as [E1 E2].
+    apply Z.eqb_eq in E1. apply Z.eqb_eq in E2. apply negb_true_iff in E3. subst s k'.
+    unfold holds in H. cbn [fst snd] in H.
+    destruct (cell_some_get _ _ _ _ H) as [r [Hr Hkr]]. rewrite (get_job_unfold c j sr Es) in Hr.
+    apply existsb_in_refl; [apply fval_eqb_refl|].
+    eapply out_all_in; [eassumption | apply aget_some_in; eassumption | eassumption | assumption].
   - (* LoadJobs *) destruct (load_jobs c js) as [l|] eqn:El; cbn [snd]; [|reflexivity].
     apply forallb_forall. intros jr Hin. eapply entry_in_rec_holds; [eassumption|].
     eapply load_jobs_in; eassumption.
